@@ -15,15 +15,17 @@ ObjCommonRead == {"name", "partial_real_shape", "partial_real_position", "partia
                   "max_random_real_offsets", "max_random_grid_offsets"}
 ObjCommonCosmetic == {"color"}
 StaticRead == ObjCommonRead \cup {"placement_order"}
-MultiRead  == StaticRead \cup {"materials", "material_name"}
+MultiRead  == StaticRead \cup {"materials", "material_name", "subpixel_smoothing", "subpixel_full_tensor"}
 SourceRead == ObjCommonRead \cup {"wave_character", "temporal_profile", "static_amplitude_factor", "switch"}
 PlaneRead  == SourceRead \cup {"direction", "azimuth_angle", "elevation_angle", "max_angle_random_offset",
                                "max_vertical_offset", "max_horizontal_offset", "normalize_by_energy",
                                "fixed_E_polarization_vector", "fixed_H_polarization_vector"}
 DetRead    == ObjCommonRead \cup {"dtype", "exact_interpolation", "inverse", "switch"}
-DetCosmetic == ObjCommonCosmetic \cup {"plot", "if_inverse_plot_backwards", "num_video_workers", "plot_interpolation", "plot_dpi"}
+DetCosmetic == ObjCommonCosmetic \cup {"_signed_data", "plot", "if_inverse_plot_backwards", "num_video_workers", "plot_interpolation", "plot_dpi"}
 PmlRead    == ObjCommonRead \cup {"axis", "direction", "kappa_start", "kappa_end", "kappa_order", "alpha_start", "alpha_end",
-                                  "alpha_order", "sigma_start", "sigma_end", "sigma_order"}
+                                  "alpha_order", "sigma_start", "sigma_end", "sigma_order",
+                                  \* public profile arrays, None until placement fills them (exported as null before placement)
+                                  "inv_kappa_E", "inv_kappa_H", "pml_a_E", "pml_a_H", "pml_b_E", "pml_b_H"}
 WallRead   == ObjCommonRead \cup {"axis", "direction"}
 
 Tbl(r, c) == [ read |-> r, cosmetic |-> c ]
